@@ -57,7 +57,7 @@ fn deps(name: &str) -> &'static [&'static str] {
     }
 }
 
-pub const BODIES: [(&str, &[&str]); 92] = [
+pub const BODIES: [(&str, &[&str]); 96] = [
     ("f0();", &["f0"]),
     ("f0(); f0();", &["f0"]),
     ("f0(); f0(); f0();", &["f0"]),
@@ -150,6 +150,10 @@ pub const BODIES: [(&str, &[&str]); 92] = [
     ("do { r = h2(); a++; } while (a < 6);", &["h2"]),
     ("r = h2() + h5();", &["h2", "h5"]),
     ("if (h2() && h5()) r = 1; else r = 2;", &["h2", "h5"]),
+    ("f0(); f0(); g6();", &["f0", "g6"]),
+    ("g1(); f0(); g6();", &["f0", "g1", "g6"]),
+    ("r = f1(); r = f1(); c = f2(a);", &["f1", "f2"]),
+    ("h9(); f0(); h3();", &["f0", "h3", "h9"]),
 ];
 
 /// extra program shapes for the call-graph property: interrupts, unused functions, prototypes
@@ -345,7 +349,7 @@ impl Check for C14 {
         "exploration"
     }
     fn rule(&self) -> String {
-        "Programs = 60 call-site bodies (statement, operand of +, condition, argument of another call, inside for/while/do loops, two and three call sites, nested calls) over a library of 16 functions (void/char-returning, 0-2 parameters, pointer parameter, locals, loops, early returns from if and switch, functions calling further functions). For every program every non-empty subset of its functions is marked inline; the variant and the baseline (no inline) are compiled at -O1 and -O0 and co-executed on the emulator from every enumerated input; halting status, all RAM, X and Y must be identical. A variant the compiler rejects is counted, not judged. Non-trivial = at least one inline variant executed; distinct = distinct body.".into()
+        "Programs = 96 call-site bodies (statement, operand of +, condition, argument of another call, inside for/while/do loops, two and three call sites, nested calls) over a library of 25 functions (void/char-returning, 0-2 parameters, pointer parameter, locals, loops, early returns from if and switch, comparisons against constants, constant returns, inline assembly with a size hint, functions calling further functions; call sites placed after statements that leave known constants or flag knowledge behind). For every program every non-empty subset of its functions is marked inline; the variant and the baseline (no inline) are compiled at -O1 and -O0 and co-executed on the emulator from every enumerated input; halting status, all RAM, X and Y must be identical. A variant the compiler rejects is counted, not judged. Non-trivial = at least one inline variant executed; distinct = distinct body.".into()
     }
     fn assumptions(&self) -> Vec<String> {
         vec!["purely differential: no reference model".into(), "the harness layout gives every local/parameter its own address, identical with and without inline".into()]
@@ -593,7 +597,7 @@ impl Check for C12 {
         "exploration"
     }
     fn rule(&self) -> String {
-        "Programs = the 60 call-site bodies of family F3 with every subset of their functions marked inline, a prototype-first variant, plus programs with unused functions, interrupt handlers (with and without callees), call chains three deep, nested inline wrappers and calls inside arguments and conditions; at -O0 and -O1. Oracle, four independent views: (a) every call written in the source of f (taken from the harness's own parse) is a direct edge of functions_call_tree[f]; (b) every 'JSR t' in write_function(f) goes to a function in the reflexive-transitive closure of the tree from f; (c) functions_actually_in_use equals reachability from main and all interrupt functions over the published tree; (d) every function the source reaches from main / interrupt handlers is in the set. Non-trivial = accepted; distinct outcomes = distinct in-use sets.".into()
+        "Programs = the 96 call-site bodies of family F3 with every subset of their functions marked inline, a prototype-first variant, plus programs with unused functions, interrupt handlers (with and without callees), call chains three deep, nested inline wrappers and calls inside arguments and conditions; at -O0 and -O1. Oracle, four independent views: (a) every call written in the source of f (taken from the harness's own parse) is a direct edge of functions_call_tree[f]; (b) every 'JSR t' in write_function(f) goes to a function in the reflexive-transitive closure of the tree from f; (c) functions_actually_in_use equals reachability from main and all interrupt functions over the published tree; (d) every function the source reaches from main / interrupt handlers is in the set. Non-trivial = accepted; distinct outcomes = distinct in-use sets.".into()
     }
     fn assumptions(&self) -> Vec<String> {
         vec!["direct recursion and function pointers are outside the family".into()]
